@@ -150,4 +150,22 @@ def extra_checks(cases, impl, model):
                 ra, rb = nz(impl[i].split("|")[0]), nz(impl[i + 1].split("|")[0])
                 if ra != rb:
                     diffs.append((i, c, "commutativity: " + ra + " vs " + rb, model[i]))
+        if name == "log_add_exp2" and "|tbl(" in impl[i] and t[0] in ("ew2@f64p", "ew2@f32p"):
+            # documented as log2(2**x1 + 2**x2) (known finding F28: the code computes log2(x1*x1 + x2*x2))
+            import math, floatsem
+            single = t[0].endswith("f32p")
+            tbl = impl[i].partition("|tbl(")[2].partition(")|")[0]
+            for kv in tbl.split(";"):
+                k, _, v = kv.partition("=")
+                if v in ("E", "?", ""):
+                    continue
+                x, y = (floatsem.value(q, single) for q in k.split("/"))
+                if math.isnan(x) or math.isnan(y) or math.isinf(x) or math.isinf(y) or max(abs(x), abs(y)) > 500:
+                    continue
+                want = max(x, y) + math.log2(2 ** (x - max(x, y)) + 2 ** (y - max(x, y)))
+                got = vlib._tokval(v)
+                if got is None or got != got or abs(got - want) > (1e-4 if single else 1e-9) * max(1.0, abs(want)):
+                    diffs.append((i, c, f"KNOWNCLASS log_add_exp2 is not log2(2**x1 + 2**x2): at ({x!r}, {y!r}) it returns {got!r}, "
+                                        f"documented value {want!r}", model[i]))
+                    break
     return diffs
